@@ -55,7 +55,6 @@ def run(chk, replay=None):
     chan_model.model_check(chk, "C13")
     n_pct, dfs = (600, 2500) if chk.thorough else (50, 250)
     cc.explore_and_validate(chk, "C13", scns, n_pct, dfs, bound=2, label="faults")
-    chk.level = "model_checking"
     chk.rule = ("cases = (fault placement x schedule): one injected errno on a send/recv/accept/getsockopt/setsockopt/setblocking call of connection 1, "
                 "%d placements, each explored with bounded DFS + sampled pre-emptions, a healthy second connection alongside; evaluations = distinct traces judged by TLC" % len(scns))
     chk.assumptions += ["descriptors are simulated: 'released' = close() called exactly once on the fake socket and buffer files closed", "one fault per scenario in the quick tier"]
